@@ -120,7 +120,7 @@ def render(i):
         return "%s %s, %s, %s" % (op, rd, rn, rm)
     if form == "DP3":
         if op in ("smulh", "umulh"):
-            return "%s %s, %s, %s" % (op, rd, rn, rm) + ("" if i["ra"]["n"] == 31 else " ; ra=%d" % i["ra"]["n"])
+            return "%s %s, %s, %s" % (op, rd, rn, rm) + ("" if i["ra"]["n"] == 31 else " // ra=%d (should be 31)" % i["ra"]["n"])
         return "%s %s, %s, %s, %s" % (op, rd, rn, rm, ra)
     if form == "CondSel":
         return "%s %s, %s, %s, %s" % (op, rd, rn, rm, COND[i["cond"]])
@@ -137,6 +137,61 @@ def render(i):
     if form == "Exception":
         return "%s #%d" % (op, imm)
     return "?%s" % op
+
+
+def _gpr_as(r, x):
+    """register name with the width letter of `x`"""
+    if r in ("wzr", "xzr"):
+        return x + "zr"
+    return x + r[1:]
+
+
+def _bitfield_alias(t):
+    m = re.match(r'^(bfxil|bfi|sbfx|sbfiz|ubfx|ubfiz) ([xw])(\w+),(\w+),#(\d+),#(\d+)$', t)
+    if m:
+        al, x, rd, rn, lsb, width = m.group(1), m.group(2), m.group(3), m.group(4), int(m.group(5)), int(m.group(6))
+        size = 64 if x == "x" else 32
+        base = {"bfxil": "bfm", "bfi": "bfm", "sbfx": "sbfm", "sbfiz": "sbfm", "ubfx": "ubfm", "ubfiz": "ubfm"}[al]
+        if al in ("bfxil", "sbfx", "ubfx"):
+            immr, imms = lsb, lsb + width - 1
+        else:
+            immr, imms = (-lsb) % size, width - 1
+        return "%s %s%s,%s,#%d,#%d" % (base, x, rd, rn, immr, imms)
+    m = re.match(r'^(lsl|lsr|asr) ([xw])(\w+),(\w+),#(\d+)$', t)
+    if m:
+        al, x, rd, rn, s = m.group(1), m.group(2), m.group(3), m.group(4), int(m.group(5))
+        size = 64 if x == "x" else 32
+        if al == "lsl":
+            return "ubfm %s%s,%s,#%d,#%d" % (x, rd, rn, (-s) % size, size - 1 - s)
+        return "%s %s%s,%s,#%d,#%d" % ("ubfm" if al == "lsr" else "sbfm", x, rd, rn, s, size - 1)
+    m = re.match(r'^mov ([xw])(\w+),#(-?\d+)$', t)
+    if m:
+        x, rd, v = m.group(1), m.group(2), int(m.group(3))
+        size = 64 if x == "x" else 32
+        u = v % (1 << size)
+
+        def single(val):
+            hs = [(val >> (16 * i)) & 0xffff for i in range(size // 16)]
+            nz = [i for i, h in enumerate(hs) if h]
+            if len(nz) == 0:
+                return (0, 0)
+            if len(nz) == 1:
+                return (hs[nz[0]], 16 * nz[0])
+            return None
+        z = single(u)
+        op = "movz"
+        if z is None:
+            z = single((~u) % (1 << size))
+            op = "movn"
+        if z is not None:
+            return "%s %s%s,#%d" % (op, x, rd, z[0]) + (",lsl #%d" % z[1] if z[1] else "")
+        return "orr %s%s,%szr,#%d" % (x, rd, x, u)  # MOV (bitmask immediate)
+    m = re.match(r'^(sxtb|sxth|sxtw|uxtb|uxth) ([xw])(\w+),(\w+)$', t)
+    if m:
+        al, x, rd, rn = m.groups()
+        imms = {"b": 7, "h": 15, "w": 31}[al[-1]]
+        return "%s %s%s,%s,#0,#%d" % ("sbfm" if al[0] == "s" else "ubfm", x, rd, _gpr_as(rn, x), imms)
+    return t
 
 
 INT = re.compile(r'#(-?)(0x[0-9a-f]+|\d+)(?![\d.])')
@@ -163,5 +218,19 @@ def normalise(text):
             t = "%s #%d" % (m.group(1), inv[m.group(2)])
     if t == "nop":
         t = "hint #0"
+    t = t.replace(",#0]", "]")
+    # llvm-mc 14 prints these aliases even with -M no-aliases
+    m = re.match(r'^(lsl|lsr|asr|ror) ([xw]\w+),([xw]\w+),([xw]\w+)$', t)
+    if m:
+        t = "%sv %s,%s,%s" % m.groups()
+    t = _bitfield_alias(t)
     # llvm prints negative logical immediates of 64-bit forms as unsigned hex already; nothing to do
     return t
+
+
+def same(rendered, *llvm_texts):
+    """does the rendering agree with one of llvm-mc's printings (no-aliases / default)?
+    (llvm-mc 14 -M no-aliases misprints the shift of register-offset loads/stores with S = 0,
+    the default printing is right there and these instructions have no aliases)"""
+    w = normalise(rendered)
+    return any(w == normalise(t) for t in llvm_texts)
